@@ -135,6 +135,17 @@ CLAIMED = {
             "from the language actually used. Does not enumerate the outcomes of all configurations.",
             "SSA shape/provenance checks of the fallback functions, struct-tag vs call-site table agreement",
             "DESIGN.md §4 C18"),
+    "C15": ("Finite-domain abstract interpretation of the contact-query evaluator (exhaustive over the abstract domains): "
+            "numberComparison over 6 operators x 3 orderings and dateComparison over 6 operators x 5 positions relative to "
+            "[dayStart, dayEnd) satisfy trichotomy, <= = (< or =), >= = (> or =), != = not =, with = exactly the calendar day of the "
+            "query value in its own timezone; evaluateBoolCombination over all 2-child vectors is AND/OR; evaluateCondition over all "
+            "value vectors of length 0..2 is any()/all(), != is the negation of =, empty values test absence/presence; the Go types "
+            "the evaluator asserts agree with the static types Contact.QueryProperty/FieldValue.QueryValue produce for all 12 "
+            "attributes, URNs and 6 field types; over 63 (value type, property class, operator) cells the validator admits only what "
+            "the dispatched comparison function handles without panicking; node switches are exhaustive; Simplify compares operators. "
+            "Does not decide date parsing of query values, tokenisation, or the comparison primitives themselves.",
+            "finite-domain abstract interpretation (path typestate engine with abstract transfer tables), sibling-table agreement",
+            "DESIGN.md §4 C15"),
 }
 
 NOT_APPLICABLE = {}
